@@ -56,68 +56,136 @@ def _mk_time(name):
 
 # ----------------------------------------------------------------------------------------------
 # simulated disk
+#
+# Files live in a real scratch directory that belongs to this OS process (removed at exit; emptied at the start
+# of every run), so that whatever the code under test does with paths - os.stat, os.replace, pathlib, temporary
+# files - works natively.  The simulator owns the `open` seam: every file opened through it is a proxy whose
+# open / write / flush / close / read operations can fail on command (ENOSPC, EIO, EACCES); a failing write
+# leaves a drawn prefix of its data in the file (torn write), a failing close loses the buffered tail.
+
+_DISK_BASE = [None]
 
 
-class SimFile(io.StringIO):
-    """Text file on the SimDisk.  Content becomes durable on flush/close."""
+def disk_base():
+    if _DISK_BASE[0] is None:
+        import atexit
+        import shutil
+        import tempfile
+        d = os.path.realpath(tempfile.mkdtemp(prefix='simverif-disk-'))
+        _DISK_BASE[0] = d
+        pid = _orig.get('getpid', os.getpid)()
 
-    def __init__(self, disk, path, mode):
-        self.disk, self.path, self.mode_ = disk, path, mode
-        init = ''
-        if 'r' in mode or 'a' in mode:
-            init = disk.files[path]
-        super().__init__(init)
-        if 'a' in mode:
-            self.seek(0, 2)
-        self._sim_closed = False
-        self.name = path
+        def cleanup():
+            if _orig.get('getpid', os.getpid)() == pid:
+                shutil.rmtree(d, ignore_errors=True)
+        atexit.register(cleanup)
+    return _DISK_BASE[0]
+
+
+class FaultyFile:
+    """Proxy around a real text file; consults the disk's fault plan on every operation."""
+    _simverif_seam = True
+
+    def __init__(self, disk, real, name, mode):
+        self._disk, self._f, self._name, self._mode = disk, real, name, mode
+        self._writable = any(c in mode for c in 'wax+')
 
     def _fault(self, op):
-        return self.disk.maybe_fault(op, self.path)
+        return self._disk.maybe_fault(op, self._name)
 
     def write(self, s):
-        if 'r' in self.mode_ and '+' not in self.mode_:
-            raise io.UnsupportedOperation('not writable')
         e = self._fault('write')
         if e is not None:
-            # torn write: a prefix of this write reaches the file before the error
-            k = self.disk.w.ch.pick('fault.torn', len(s) + 1) if s else 0
-            super().write(s[:k])
-            self.disk.files[self.path] = self.getvalue()
-            self.disk.w.probe('torn_file_left')
+            k = self._disk.w.ch.pick('fault.torn', len(s) + 1) if s else 0
+            try:
+                self._f.write(s[:k])
+                self._f.flush()
+            except Exception:
+                pass
+            self._disk.w.probe('torn_file_left')
             raise e
-        return super().write(s)
+        return self._f.write(s)
+
+    def writelines(self, lines):
+        for ln in lines:
+            self.write(ln)
 
     def read(self, *a):
         e = self._fault('read')
         if e is not None:
             raise e
-        return super().read(*a)
+        return self._f.read(*a)
 
-    def flush(self):
-        if self._sim_closed:
-            return
-        if 'r' in self.mode_ and '+' not in self.mode_:
-            return
-        e = self._fault('flush')
+    def readline(self, *a):
+        e = self._fault('read')
         if e is not None:
             raise e
-        self.disk.files[self.path] = self.getvalue()
+        return self._f.readline(*a)
+
+    def flush(self):
+        if self._f.closed:
+            return
+        if self._writable:
+            e = self._fault('flush')
+            if e is not None:
+                raise e
+        return self._f.flush()
 
     def close(self):
-        if self._sim_closed:
+        if self._f.closed:
             return
         try:
-            if not ('r' in self.mode_ and '+' not in self.mode_):
+            if self._writable:
                 e = self._fault('close')
                 if e is not None:
-                    # the buffered tail is lost
+                    # the buffered tail never reaches the file
+                    try:
+                        self._f.detach().close() if hasattr(self._f, 'detach') and False else None
+                    except Exception:
+                        pass
+                    self._lose_tail()
                     raise e
-                self.disk.files[self.path] = self.getvalue()
         finally:
-            self._sim_closed = True
-            self.disk.w.log('disk.close', path=self.path)
-            super().close()
+            try:
+                self._f.close()
+            except Exception:
+                pass
+            self._disk.w.log('disk.close', path=self._name)
+
+    def _lose_tail(self):
+        # drop whatever is still buffered: truncate the python-level buffer by closing the raw descriptor first
+        try:
+            raw = self._f.buffer.raw
+            os.close(raw.fileno())
+        except Exception:
+            pass
+
+    def __enter__(self):
+        return self
+
+    def __exit__(self, *a):
+        self.close()
+        return False
+
+    def __iter__(self):
+        return self
+
+    def __next__(self):
+        line = self.readline()
+        if not line:
+            raise StopIteration
+        return line
+
+    @property
+    def closed(self):
+        return self._f.closed
+
+    @property
+    def name(self):
+        return self._f.name
+
+    def __getattr__(self, k):
+        return getattr(self._f, k)
 
 
 class SimDisk:
@@ -126,9 +194,23 @@ class SimDisk:
 
     def __init__(self, w):
         self.w = w
-        self.files = {}
-        self.plan = None      # None: no faults; else {'at': k, 'ops': set, 'err': idx}
+        self.root = os.path.join(disk_base(), 'run')
+        self.plan = None      # None: no faults; else {'at': k, 'err': idx}
         self.opcount = 0
+
+    def reset(self):
+        import shutil
+        shutil.rmtree(self.root, ignore_errors=True)
+        os.makedirs(self.root)
+
+    def path(self, name):
+        return os.path.join(self.root, name)
+
+    def owns(self, file):
+        try:
+            return os.path.abspath(os.fspath(file)).startswith(self.root + os.sep)
+        except TypeError:
+            return False
 
     def arm(self, at, err):
         self.plan = {'at': at, 'err': err}
@@ -137,47 +219,39 @@ class SimDisk:
     def disarm(self):
         self.plan = None
 
-    def maybe_fault(self, op, path):
-        self.w.log('disk.op', op=op, path=path)
+    def maybe_fault(self, op, name):
+        self.w.log('disk.op', op=op, path=name)
         if self.plan is None:
             return None
         k = self.opcount
         self.opcount += 1
         if k == self.plan['at']:
             code, msg = self.ERRS[self.plan['err'] % len(self.ERRS)]
-            self.w.fault('io_error', op=op, path=path, errno=code)
+            self.w.fault('io_error', op=op, path=name, errno=code)
             self.w.probe('io_error_at_' + op)
-            e = OSError(code, msg, path)
+            e = OSError(code, msg, name)
             e._sim_transported = True      # injected on purpose: not a harness bug
             return e
         return None
 
-    def open(self, path, mode='r', *a, **kw):
-        path = os.fspath(path)
-        if 'b' in mode:
-            raise W.HarnessError('binary mode on SimDisk not modelled: %r' % (mode,))
-        e = self.maybe_fault('open', path)
+    def open(self, file, mode='r', *a, **kw):
+        name = os.path.basename(os.fspath(file))
+        e = self.maybe_fault('open', name)
         if e is not None:
             raise e
-        if 'r' in mode and path not in self.files:
-            e = FileNotFoundError(errno.ENOENT, 'No such file or directory', path)
-            e._sim_transported = True
-            raise e
-        if 'w' in mode:
-            self.files[path] = ''     # O_TRUNC takes effect at open
-        elif 'x' in mode:
-            if path in self.files:
-                raise FileExistsError(errno.EEXIST, 'File exists', path)
-            self.files[path] = ''
-        elif 'a' in mode and path not in self.files:
-            self.files[path] = ''
-        return SimFile(self, path, mode)
+        try:
+            real = _orig['open'](file, mode, *a, **kw)
+        except OSError as err:
+            err._sim_transported = True
+            raise
+        if 'b' in mode:
+            return real
+        return FaultyFile(self, real, name, mode)
 
 
 def _sim_open(file, mode='r', *a, **kw):
     w = simmp.CURRENT[0]
-    if w is None or w.disk is None or not isinstance(file, (str, os.PathLike)) \
-            or not os.fspath(file).startswith('/sim/'):
+    if w is None or w.disk is None or not isinstance(file, (str, os.PathLike)) or not w.disk.owns(file):
         return _orig['open'](file, mode, *a, **kw)
     return w.disk.open(file, mode, *a, **kw)
 
@@ -503,6 +577,8 @@ def begin_run(w):
     w.lib_calls = []
     w.trace_on = True
     w.disk = SimDisk(w)
+    w.disk.reset()
+    os.chdir(w.disk.root)
     w.stdout = _Sink(w)
     sys.stdout = w.stdout
     logging.raiseExceptions = False
